@@ -15,8 +15,8 @@ import (
 
 type c15Op struct {
 	Op   string `json:"op"`
-	V    int    `json:"v"`  // which live value (MapMemory pool)
-	W    int    `json:"w"`  // second value (Equal, Clone destination)
+	V    int    `json:"v"` // which live value (MapMemory pool)
+	W    int    `json:"w"` // second value (Equal, Clone destination)
 	Addr int    `json:"addr"`
 	Data []int  `json:"data,omitempty"`
 }
